@@ -30,6 +30,15 @@ class HandlerError(Exception):
     """what the `raises` handler raises"""
 
 
+def handler_exception_type(r):
+    """which exception class the `raises` handler of request r raises: the harness' own class, and classes the transport's
+    own code also catches for other purposes (the TimeoutError family is one class in Python >= 3.11: asyncio's, the
+    builtin, socket.timeout; mpservice.mpserver.TimeoutError derives from it) - they must reach the requester all the same"""
+    import asyncio
+    from mpservice.mpserver import TimeoutError as MpTimeout
+    return [HandlerError, TimeoutError, KeyError, asyncio.TimeoutError, MpTimeout, HandlerError, ValueError, OSError][r % 8]
+
+
 # ---------------------------------------------------------------------------------------------------------------
 # payload catalogue
 
@@ -357,7 +366,7 @@ def run_socket(sc):
                 state['finished'].add(r)
                 cond.notify_all()
             if sc['cls'][r - 1] == 'raises':
-                raise HandlerError(r, payload)
+                raise handler_exception_type(r)(r, payload)
             return ('echo', r, payload)
         return verif_handler
 
@@ -389,7 +398,7 @@ def run_socket(sc):
 
     def check_result(r, y, is_exc):
         if sc['cls'][r - 1] == 'raises':
-            ok = (is_exc and type(y) is HandlerError and y.args == (r, payloads[r]) and is_remote_exception(y)
+            ok = (is_exc and type(y) is handler_exception_type(r) and y.args == (r, payloads[r]) and is_remote_exception(y)
                   and 'verif_handler' in get_remote_traceback(y))
         else:
             exp = ('echo', r, payloads[r])
